@@ -31,6 +31,11 @@ func init() {
 // boundedByMax: is value v, as it arrives over an edge from block `from`,
 // known to be <= db.MaxSize, or is no limit configured on that path?
 func boundedByMax(c *Ctx, v ssa.Value, from *ssa.BasicBlock, maxF *types.Var, depth int) (bool, string) {
+	return boundedByMaxEdge(c, v, from, nil, maxF, depth)
+}
+
+// boundedByMaxEdge: as boundedByMax, for a value flowing over the CFG edge from -> to (to may be nil).
+func boundedByMaxEdge(c *Ctx, v ssa.Value, from, to *ssa.BasicBlock, maxF *types.Var, depth int) (bool, string) {
 	v = stripConv(v)
 	if depth > 6 {
 		return false, "too deep"
@@ -44,7 +49,7 @@ func boundedByMax(c *Ctx, v ssa.Value, from *ssa.BasicBlock, maxF *types.Var, de
 		for i, e := range phi.Edges {
 			pred := phi.Block().Preds[i]
 			// the comparison may also be on the phi itself further down: try the edge value at its predecessor
-			if ok2, why := boundedByMax(c, e, pred, maxF, depth+1); !ok2 {
+			if ok2, why := boundedByMaxEdge(c, e, pred, phi.Block(), maxF, depth+1); !ok2 {
 				return false, fmt.Sprintf("incoming value from block %d: %s", pred.Index, why)
 			}
 		}
@@ -71,6 +76,10 @@ func boundedByMax(c *Ctx, v ssa.Value, from *ssa.BasicBlock, maxF *types.Var, de
 		}
 		inTrue := from == b.Succs[0] && len(b.Succs[0].Preds) == 1 || (len(b.Succs[0].Preds) == 1 && b.Succs[0].Dominates(from))
 		inFalse := from == b.Succs[1] && len(b.Succs[1].Preds) == 1 || (len(b.Succs[1].Preds) == 1 && b.Succs[1].Dominates(from))
+		if b == from && to != nil && b.Succs[0] != b.Succs[1] {
+			// the branch that ends `from` itself decides the edge from -> to
+			inTrue, inFalse = b.Succs[0] == to, b.Succs[1] == to
+		}
 		switch {
 		case x == v && isMax(y): // v OP MaxSize
 			if (bo.Op == token.GTR || bo.Op == token.GEQ) && inFalse {
@@ -138,8 +147,8 @@ func ruleTruncateBound(c *Ctx, id string) {
 								if ld, isLd := stripConv(bo.Y).(*ssa.UnOp); !isLd || pathOf(ld).Last() != maxF {
 									return
 								}
-								if !dominates(bo, pc) {
-									return
+								if !reach([]ssa.Instruction{bo}, nil, nil, nil)[pc] || reach([]ssa.Instruction{pc}, nil, nil, nil)[bo] {
+									return // the comparison must come before the mapping call
 								}
 								// some ErrMaxSizeReached return is control-dependent on it and precedes the call
 								for _, ret := range returnsOf(dm) {
